@@ -265,7 +265,7 @@ var (
 	bodyAlpha = [][]byte{nil, []byte("a"), []byte("a\nb"), []byte("[x]"), []byte("1 /z"), {0x00, 0xff}, []byte("\r\n")}
 	// JSON strings cannot carry invalid UTF-8; the binary body is replaced by control and non-ASCII characters
 	bodyAlphaJSON = [][]byte{nil, []byte("a"), []byte("a\nb"), []byte("[x]"), []byte("{\"q\":1}"), []byte("\x00\x7fé"), []byte("\r\n")}
-	dirAlpha      = []KV{{"A", "1"}, {"Host", "h.example"}, {"A", "2"}, {"X-b", "v w"}}
+	dirAlpha      = []KV{{"A", "1"}, {"Host", "h.example"}, {"A", "2"}, {"X-b", "v w"}, {"X-Ids", "[1,2]]"}}
 )
 
 func itemAlphabet(format string, reduced bool) []Item {
@@ -281,7 +281,7 @@ func itemAlphabet(format string, reduced bool) []Item {
 			out = append(out, Item{Dir: &dirAlpha[i]})
 		}
 		if reduced {
-			out = []Item{out[0], out[4], out[5], out[6], out[7], out[8]}
+			out = []Item{out[0], out[4], out[5], out[6], out[7], out[8], {Dir: &dirAlpha[4]}}
 		}
 	case "uripost":
 		if reduced {
@@ -289,7 +289,7 @@ func itemAlphabet(format string, reduced bool) []Item {
 				{URI: "/", Body: nil}, {URI: "/a?b=c&d=e", Body: []byte("a\nb"), Tag: "two words"},
 				{URI: "/", Body: []byte("1 /z"), Tag: "t"}, {URI: "/", Body: []byte("\r\n")}, {URI: "/a?b=c&d=e", Body: []byte{0, 0xff}, Tag: "t"},
 				{URI: "/", Body: []byte("[x]")},
-				{Dir: &dirAlpha[0]}, {Dir: &dirAlpha[1]}, {Dir: &dirAlpha[2]},
+				{Dir: &dirAlpha[0]}, {Dir: &dirAlpha[1]}, {Dir: &dirAlpha[2]}, {Dir: &dirAlpha[4]},
 			}
 			return out
 		}
